@@ -25,5 +25,29 @@ pub fn verif_is_char_boundary(s: &str, index: usize) -> (r: bool)
 //@rewrite <<<for (start_, end_) in submatches {>>> => <<<proof { is_char_boundary_start_end_of_seq(line.spec_bytes()); } for (start_, end_) in it: submatches {>>>
 //@loop 1| invariant curr <= line.spec_bytes().len(), /* @C03,C16:mss.cursor.stays.on.a.char.boundary.inside.the.line */ is_char_boundary(line.spec_bytes(), curr as int),
 
+// ---------------------------------------------------------------- GrepLine::expand_tabs: the `shift` closure (F09)
+/// ASSUMED contract of `<[T]>::partition_point` on a slice that is partitioned by the predicate:
+/// "Returns the index of the partition point according to the given predicate (the index of the first element of the second partition)."
+pub assume_specification<T, P: FnMut(&T) -> bool>[ <[T]>::partition_point::<P> ](s: &[T], pred: P) -> (r: usize)
+    requires forall|x: &T| #[trigger] pred.requires((x,)),
+    ensures
+        r <= s@.len(),
+        forall|i: int| 0 <= i < r ==> pred.ensures((&#[trigger] s@[i],), true),
+        forall|i: int| r <= i < s@.len() ==> pred.ensures((&#[trigger] s@[i],), false);
+/// tab positions are collected by increasing byte offset
+pub open spec fn increasing(t: Seq<usize>) -> bool { forall|i: int, j: int| 0 <= i < j < t.len() ==> t[i] < t[j] }
+/// number of tabs at byte offsets strictly before pos
+pub open spec fn tabs_before(t: Seq<usize>, pos: usize, n: int) -> bool {
+    0 <= n <= t.len() && (forall|i: int| 0 <= i < n ==> #[trigger] t[i] < pos) && (forall|i: int| n <= i < t.len() ==> #[trigger] t[i] >= pos)
+}
+//@ region src/handlers/grep.rs GrepLine::expand_tabs
+//@sig pub fn expand_tabs_shift(tab_positions: &Vec<usize>, extra_per_tab: usize, pos: usize) -> (r: usize)
+//@from <<<let n_tabs_before = tab_positions.partition_point(>>>
+//@to <<<pos.saturating_add(n_tabs_before * extra_per_tab)>>>
+//@rewrite <<<|tab| *tab < pos>>> => <<<|tab: &usize| -> (b: bool) ensures b == (*tab < pos) { *tab < pos }>>>
+//@| requires increasing(tab_positions@), tab_positions@.len() * extra_per_tab <= usize::MAX,
+//@| ensures exists|n: int| #[trigger] tabs_before(tab_positions@, pos, n) && r == (if pos + n * extra_per_tab <= usize::MAX { (pos + n * extra_per_tab) as usize } else { usize::MAX }),  // @C16:an.offset.moves.right.by.the.growth.of.the.tabs.strictly.before.it
+//@before <<<pos.saturating_add(>>>| proof { assert(tabs_before(tab_positions@, pos, n_tabs_before as int)); assert(n_tabs_before * extra_per_tab <= tab_positions@.len() * extra_per_tab) by(nonlinear_arith) requires n_tabs_before <= tab_positions@.len(); }
+
 } // verus!
 fn main() {}
